@@ -210,6 +210,28 @@ fn part_a_case(c: &mut Chooser) -> (Vec<TsDoc>, Vec<String>) {
     if let Some(d) = files.iter_mut().flat_map(|f| f.defs.iter_mut()).find(|d| d.kind == TsKind::Input && !d.ext && d.name_str() == "Filter") {
         d.input_fields.push(InputValueDef { desc: None, p: P::default(), name: nm("labels"), ty: list_of(Ty::named("String")), default: None, dirs: vec![] });
     }
+    // an interface that gains `implements` only through an extension, with nothing else in the schema depending on
+    // it: the checker accepts the schema either way, so only the printed string can show whether the merge kept it
+    // (seeded change C16-k; in c05's own variant a lost `implements` makes the check fail and the case is skipped here)
+    if c.flag("interface.implements_only_by_extension") {
+        let mut b = TsDef::new(TsKind::Interface, Some("Base3"));
+        b.fields = vec![FieldDef { desc: None, name: nm("b"), args: None, ty: Ty::named("Int"), dirs: vec![] }];
+        let mut m = TsDef::new(TsKind::Interface, Some("Mid3"));
+        m.fields = b.fields.clone();
+        let mut e = TsDef::new(TsKind::Interface, Some("Mid3"));
+        e.ext = true;
+        e.implements = vec![nm("Base3")];
+        if c.flag("interface.extension_before_definition") {
+            files[0].defs.insert(0, e);
+            files[0].defs.push(b);
+            files[0].defs.push(m);
+        } else {
+            files[0].defs.push(b);
+            files[0].defs.push(m);
+            files[0].defs.push(e);
+        }
+        tags.push("interface-implements-only-by-extension".into());
+    }
     // a nitrogql-only directive application that must be stripped
     if c.flag("scalar.nitrogql_ts_type") {
         if let Some(d) = files.iter_mut().flat_map(|f| f.defs.iter_mut()).find(|d| d.kind == TsKind::Scalar && !d.ext) {
